@@ -90,13 +90,17 @@ def assembled(ctx, oracle, cases, rng, members, pid):
     from cij.core.tasks import PhononContributionTaskList
     from cij.util import c_
     keys = [(1, 1), (2, 2), (3, 3), (1, 2), (1, 3), (2, 3)]
-    picks = list(range(0, len(cases), max(1, len(cases) // (6 if len(cases) <= 80 else 60))))
+    picks = list(range(0, len(cases), max(1, len(cases) // (8 if len(cases) <= 80 else 80))))
     for n, ci in enumerate(picks):
         case = cases[ci]
         ntv = len(case["v"])
         e = draw_fractions(rng, ntv)
-        form = ("ones", "fractions", "scaled_rows")[n % 3]
+        form = ("ones", "fractions", "scaled_rows", "near_equal")[n % 4]
         raw = numpy.ones((ntv, 3)) if form == "ones" else e if form == "fractions" else e * rng.uniform(0.3, 5.0, (ntv, 1))
+        if form == "near_equal":
+            # two axes whose strains differ by 5e-5 .. 3e-4 (a pseudo-tetragonal cell): different numbers - each component gets its own e_i
+            raw = e.copy()
+            raw[:, 1] = raw[:, 0] * (1.0 + rng.uniform(5e-5, 3e-4, ntv))
         frac = raw / raw.sum(axis=1, keepdims=True)
         ctx.count({"assembled": ci, "strain_form": form, "h": float(case["freq"].sum())})
         duck = DuckCalc(case)
